@@ -34,6 +34,10 @@ structure CInv (d : DictFn) (s : CN) : Prop where
 theorem CInv_init (d : DictFn) (c : Bool) : CInv d { coal := c } := by
   constructor <;> simp [CN.terminated]
 
+/-- a fresh connection of either kind (TCP-like, or a multistream association) -/
+theorem CInv_init' (d : DictFn) (m c : Bool) : CInv d { multi := m, coal := c } := by
+  constructor <;> simp [CN.terminated]
+
 macro "cinv_close" h:ident : tactic => `(tactic| (
   obtain ⟨h1, h2, h3, h4, h5, h6, h7, h8, h9, h10, h11, h12, h13, h14, h15, h16, h17, h18, h19⟩ := $h
   constructor <;> simp_all [CN.terminated] <;> grind))
@@ -155,7 +159,11 @@ theorem CInv_step_requestCN (d : DictFn) (s s' : CN) (h : CInv d s) (hs : s.step
     · simp only [hg, if_true] at hs
       cases hs; cinv_close h
     · simp only [hg] at hs
-      cases hs; cinv_close h
+      by_cases hm : s.multi = true
+      · simp only [hm, if_true] at hs
+        cases hs; cinv_close h
+      · simp only [hm] at hs
+        cases hs; cinv_close h
   | «open» => simp only [CN.step, hc] at hs; cases hs; exact h
   | closed => simp only [CN.step, hc] at hs; cases hs; exact h
 
